@@ -2,11 +2,12 @@
 from vlib.core import core_check
 
 OPTS = [dict(p_rel=1.0), dict(p_rel=1.0, max_m=2, max_t=4), dict(p_rel=1.0, p_nested=0.3),
-        dict(p_chain=1.0, max_t=4, max_m=3, p_rel=0.5, p_struct=0.25)]
+        dict(p_chain=1.0, max_t=4, max_m=3, p_rel=0.5, p_struct=0.25),
+        dict(p_rel=0.5, p_dblrel=1.0, max_m=3, max_t=3, p_nested=0.05, _weight=2)]
 
 
 def run(rep):
-    core_check(rep, "C08", [dict(o) for o in OPTS], 84, 2000, nontrivial_key="impl_with_prio_rel")
+    core_check(rep, "C08", [dict(o) for o in OPTS], 105, 2500, nontrivial_key="impl_with_prio_rel")
     rep.coverage["rule"] = ("random designs from vlib/coregen.py's grammar built with the real API, every valuation of the "
                             "control inputs (or random ones when there are many), both directions bound by TxnCoreTrace; "
                             "clause PriorityRespected for every prioritised conflict lifted to transactions; distinct_nontrivial = built designs with a prioritised conflict")
